@@ -28,7 +28,7 @@ def mutate(rng, b):
 class Prop(PropBase):
     pid = 'C08'
     kernels = ['Trigon', 'InputRaw_feedPacket']
-    vo_targets = ['Props/Properties_C08.vo', 'Proofs/Layout.vo', 'Proofs/Eq_Trigon.vo', 'Proofs/Eq_Copy.vo']
+    vo_targets = ['Props/Properties_C08.vo', 'Proofs/Layout.vo', 'Proofs/Eq_Trigon.vo', 'Proofs/Eq_Copy.vo', 'Proofs/Footprint.vo']
     prop_files = ['Props/Properties_C08.v']
     rule = ('all 17 types, ASan+UBSan build: structured mutations of valid MSOP/DIFOP packets (bit flips, truncation to 0/1/2/3/8/41..len-1, extension, 0xFF/0x00 runs, random bodies '
             'under both dispatch prefixes), datagram lengths around every accepted length and the packet-buffer size (1546/65536), with and without a packet callback, user/tail layers, '
